@@ -60,9 +60,31 @@ def sympy_to_inline_js(expr: sympy.Expr) -> str:
     return cast(str, jscode(expr, full_prec=False))
 
 
+def _integers_to_floats(expr: sympy.Basic) -> sympy.Basic:
+    """Replace integers by floats, rust doesn't mix integer literals and f64.
+
+    Integer exponents (printed as `powi`) and the sign of a product (printed as
+    unary minus) are kept.
+    """
+    if isinstance(expr, sympy.Integer):
+        return sympy.Float(expr)
+    if isinstance(expr, sympy.Pow) and isinstance(expr.exp, sympy.Integer):
+        return sympy.Pow(_integers_to_floats(expr.base), expr.exp)
+    if isinstance(expr, sympy.Mul):
+        return sympy.Mul(
+            *(
+                i if i in (sympy.S.One, sympy.S.NegativeOne) else _integers_to_floats(i)
+                for i in expr.args
+            )
+        )
+    if len(expr.args) == 0:
+        return expr
+    return expr.func(*(_integers_to_floats(i) for i in expr.args))
+
+
 def sympy_to_inline_rust(expr: sympy.Expr) -> str:
     """Create rust code from sympy expression."""
-    return cast(str, rust_code(expr, full_prec=False))
+    return cast(str, rust_code(_integers_to_floats(expr), full_prec=False))
 
 
 def sympy_to_inline_julia(expr: sympy.Expr) -> str:
@@ -125,5 +147,6 @@ def stoichiometries_to_sympy(
             )
             expr = expr + sympy_fn * sympy.Symbol(rxn_name)  # type: ignore
         else:
-            expr = expr + rxn_stoich * sympy.Symbol(rxn_name)  # type: ignore
+            # Always as float, languages like rust don't mix integer literals and floats
+            expr = expr + sympy.Float(rxn_stoich) * sympy.Symbol(rxn_name)  # type: ignore
     return expr.subs(1.0, 1)  # type: ignore
